@@ -44,6 +44,8 @@ def run(ctx):
                       "Parameter is installed in the class namespace before its __set__ (which dispatches) runs (shared with R13.e)", floor=1)
     ctx.rule("R03.i", "instance or class is decided by identity (shared with R12.v): no boolean-context use of the namespace's instance -- for an instance that is falsy (defines __len__ / "
                       "__bool__) update() and trigger() would assign on the CLASS, so the instance's watchers are never called", floor=40)
+    ctx.rule("R03.j", "who may take entries out of the batch queues: every function that rebinds `_state_watchers` / `_events` or removes from them in place is one of the queue managers "
+                      "(discard_events, trigger, the flush); unwatch and the registration code do not touch what is already queued", floor=3)
     ctx.rule("R03.k", "every class and every instance has dispatch state of its own: _ClassPrivate.__init__ / _InstancePrivate.__init__ interpreted twice in one interpreter (module-level "
                       "objects shared, as at run time) store no container -- state dict, event queue, watcher queue, stores, tables -- that the other namespace holds too, at any depth", floor=1)
     ctx.rule("R03.r", "precedence is kept as given: Watcher.__new__ interpreted abstractly stores the precedence it is handed (an integer, a fraction, a negative internal one) unchanged and 0 "
@@ -367,6 +369,7 @@ def run(ctx):
     fresh_private_state(ctx, "R03.k")
     from checks.shared import instance_tested_by_identity
     instance_tested_by_identity(ctx, "R03.i")
+    queue_rewriters(ctx, "R03.j")
 
     # the model-level rule comes last: if the interpreter cannot follow an edited flush,
     # the structural findings above are still reported
@@ -382,3 +385,48 @@ def run(ctx):
     cm_model.report(ctx, "C03", "R03.x")
     from checks import update_model
     update_model.report(ctx, "C03", "R03.u")
+
+
+QUEUE_REWRITERS = {
+    "param.parameterized.discard_events": "puts back the queues it saved on entry (drops what the block queued)",
+    "param.parameterized.Parameters.trigger": "parks the queues around its own update and merges them back afterwards",
+    "param.parameterized.Parameters._batch_call_watchers": "drains the queues it is about to deliver",
+}
+
+
+def queue_rewriters(ctx, rule):
+    """Who may take something OUT of the batch queues: a watcher queued for an event that happened is owed its call.  Every
+    function that rebinds `_state_watchers` / `_events` (assignment, augmented assignment) or removes from them in place
+    (remove / pop / clear / del) must be in the frozen table of queue managers; `_call_watcher` only appends."""
+    found = {}
+    for f in ctx.repo.all_funcs("param"):
+        if f.name in ("_state_watchers", "_events"):
+            continue            # the property pair itself
+        for st in ast.walk(f.node):
+            hit = None
+            if isinstance(st, (ast.Assign, ast.AugAssign, ast.AnnAssign)):
+                targets = st.targets if isinstance(st, ast.Assign) else [st.target]
+                for t in targets:
+                    for x in ast.walk(t):
+                        if isinstance(x, ast.Attribute) and isinstance(x.ctx, ast.Store) and x.attr in ("_state_watchers", "_events"):
+                            hit = x
+                        if isinstance(x, ast.Subscript) and isinstance(x.ctx, ast.Store) and isinstance(x.value, ast.Attribute) and x.value.attr in ("_state_watchers", "_events"):
+                            hit = x.value
+            if isinstance(st, ast.Call) and isinstance(st.func, ast.Attribute) and st.func.attr in ("remove", "pop", "clear", "__delitem__") \
+                    and isinstance(st.func.value, ast.Attribute) and st.func.value.attr in ("_state_watchers", "_events"):
+                hit = st.func.value
+            if isinstance(st, ast.Delete):
+                for t in st.targets:
+                    if isinstance(t, ast.Subscript) and isinstance(t.value, ast.Attribute) and t.value.attr in ("_state_watchers", "_events"):
+                        hit = t.value
+            if hit is not None:
+                found.setdefault(f.qualname, (f, st))
+    ctx.require(len(found) >= 3, "fewer than 3 functions rewrite the batch queues (%d): the who-may-rewrite rule lost its instances" % len(found))
+    for q, (f, st) in sorted(found.items()):
+        if q in QUEUE_REWRITERS:
+            ctx.ok(rule, f, st, "queue manager: %s" % QUEUE_REWRITERS[q])
+        else:
+            ctx.fail(rule, f, st, "%s rewrites the batch queue (`%s`): only the queue managers (discard_events, trigger, the flush) may take entries out -- a watcher that was queued for an event "
+                                  "that happened is owed exactly one call before the outermost assignment returns, also when it is unregistered in the meantime" % (
+                                      f.qualname.rsplit(".", 1)[-1], norm(st)[:70]), key="%s::rewrites-the-queue" % q,
+                     input="a queued=True callback assigns y and then unwatches one of y's watchers: that watcher never receives the event")
